@@ -177,7 +177,16 @@ func (b *bodyRun) apply(op *bodyOp, tmp string) (ok bool, xmlv []elemV, isSave b
 			d.AddPageBreak()
 		case "AddImage":
 			w, h := imgDims(3)
-			d.AddImageFromData(imageBytes("png", 3), "x.png", document.ImageFormatPNG, w, h, nil)
+			// without a configuration, or with one of the positions and wrapping modes (whatever they are, the picture is
+			// one more element at the end)
+			var cfg *document.ImageConfig
+			if op.N%3 != 0 {
+				cfg = &document.ImageConfig{
+					Position: []document.ImagePosition{document.ImagePositionInline, document.ImagePositionFloatLeft, document.ImagePositionFloatRight}[op.N%3],
+					WrapText: []document.ImageWrapText{document.ImageWrapNone, document.ImageWrapSquare, document.ImageWrapTight, document.ImageWrapTopAndBottom}[(op.N/3)%4],
+				}
+			}
+			d.AddImageFromData(imageBytes("png", 3), "x.png", document.ImageFormatPNG, w, h, cfg)
 		case "AddListItem":
 			d.AddListItem(txt(), &document.ListConfig{Type: document.ListTypeNumber, StartNumber: 1})
 		case "AddBulletList":
